@@ -252,6 +252,17 @@ Theorem C14_g1_assoc_generic : forall x1 y1 x2 y2 x3 y3,
 Proof. exact assoc_generic. Qed.
 Print Assumptions C14_g1_assoc_generic.
 
+(* parsing is a function of the input only: a failed parse yields the invalid object, which never verifies
+   (whatever a reused receiver held before); and in the exponent model an identity argument pairs to 1 *)
+Theorem C14_parse_fail_invalid_sig : forall pe pk b v, sig_deserialize b = (v, true) -> verify_sig pe pk v = false.
+Proof. exact parse_fail_invalid_sig. Qed.
+Theorem C14_parse_fail_invalid_sig_hex : forall pe pk s v, sig_set_hex s = (v, true) -> verify_sig pe pk v = false.
+Proof. exact parse_fail_invalid_sig_hex. Qed.
+Theorem C14_parse_fail_invalid_pk : forall pe b s e, pk_deserialize b = Err e -> verify_sig pe (byte_to_pk b) s = false.
+Proof. exact parse_fail_invalid_pk. Qed.
+Theorem C14_pairing_identity_exp : forall r a, e_exp r a 0 = 0 /\ e_exp r 0 a = 0.
+Proof. exact e_exp_identity. Qed.
+
 (* ---- the code before the fixes: the property was false (witnesses re-checked by the kernel) ---- *)
 Theorem C14_overlong_refuted :
   exists (hs : g1) (b : bytes), g1_wf hs /\ b <> sig_serialize hs /\
